@@ -66,7 +66,8 @@ RULE = ("fake-integrator cases: random entry point (integrateFuncJac, integrate2
         "model or pygom.common_models object): solve on (A, G0); then per dimension, in random order, change one of {t0, x0, "
         "parameters (redrawn or the same values bound to other names), t0 and x0, grid: same length other values / same length and "
         "end points other interior / superset / subset / last time as a scalar, t0 and grid together, container, method, "
-        "full_output, includeOrigin, entry point}, solve, restore, solve; only what differs from what the instance was last given "
+        "full_output, includeOrigin, entry point; parameters given scipy.stats distributions (half of the time used by a random "
+        "solve_determ) and then their plain numbers again}, solve, restore, solve; only what differs from what the instance was last given "
         "is re-assigned (initial_time / initial_state or initial_values; parameters as dict / partial dict / (name, value) tuples / "
         "list or ndarray in declaration order). SIBLINGS: live instances with the same names - parameter list (40%: and state list) "
         "declared in another order with other values (half of the time the same values on other names), a re-defined derived "
@@ -1007,6 +1008,9 @@ def run_runtime(case):
 #   siblings   live instances with the same names: parameters and/or states declared in another order, other
 #              values, a re-defined derived parameter / an extra term, a fresh twin built in mid-history, a
 #              deepcopy; solved interleaved.
+#              Left-over configuration: distributions assigned to the parameters (scipy.stats frozen gamma, optionally used
+#              by a random solve_determ), then every parameter given its plain number again: the solve must be the one for
+#              those numbers (random parameters themselves are outside the model and are not judged).
 #   forms      integer-valued inputs in every accepted spelling (grid list/tuple/ndarray/int list/int64/int32/
 #              numpy scalars/mixed/scalar, x0 list/tuple/float or int ndarray/int list, t0 float/int/np.float64/
 #              np.int64, parameters dict/partial dict/tuples/ordered list/ordered ndarray), a grid starting at t0.
@@ -1175,6 +1179,12 @@ def gen_session_history(rng, entries, radau):
             if rng.random() < 0.85:
                 ops.append(b())         # restored
         ops.append(b())
+    # left-over configuration, at the end of the session (everything after it carries `after-random-parameters` in its
+    # history class): distributions are assigned to the parameters and, half of the time, used by a random solve_determ;
+    # then every parameter is given its plain number again and each entry point solves once more
+    for e in entries:
+        ops.append({"op": "randomise", "inst": 0, "grid": "G0", "solve": rng.random() < 0.5})
+        ops.append(_solve_op(0, "A", "G0", e, base, pform=rng.choice([f for f in PFORMS if f != "partial"])))
     return {"kind": "session", "flavour": "history", "instances": [inst], "tbase": fr(rng.choice([0, 0, Fraction(1, 2), -1, 3])),
             "Tmax": rng.choice([1, 2, 3]), "grids": {k: [fr(f) for f in v] for k, v in grids.items()}, "ops": ops, "radau": bool(radau)}
 
@@ -1518,6 +1528,23 @@ def run_session(case):
             return done()
         L = live[i]
         model, cur = L["model"], L["cur"]
+        if op["op"] == "randomise":
+            import scipy.stats
+            pd0 = cur["params"][0] if cur["params"] else {}
+            dists = {k: scipy.stats.gamma(a=100.0, scale=v / 100.0) for k, v in pd0.items() if v > 0}
+            if dists:
+                np.random.seed(20250928)        # pygom draws with rvs() from numpy's global generator
+                try:
+                    model.parameters = dists
+                    if op.get("solve"):
+                        model.solve_determ([tval(f) for f in case["grids"][op["grid"]]], iteration=2)
+                    tags.append("session:random-parameters-assigned")
+                    counts["visible"] += 1
+                except Exception as exc:         # random parameters are not this property's business
+                    tags.append("session:random-parameters:raised:%s" % type(exc).__name__)
+                cur["params"] = None             # whatever the draws left behind: every parameter is re-assigned next
+                L["after_random"] = True
+            continue
         R = refs[(root(i), op["cfg"])]
         c = cfg_of(i, op["cfg"])
         pd = {k: float(Fraction(v)) for k, v in c["params"].items()}
@@ -1539,6 +1566,8 @@ def run_session(case):
                 rel = {"G1": "values", "G2": "superset", "G3": "subset", "G4": "interior", "Gs": "scalar", "Gz": "starts-at-t0"}
                 other = now["gname"] if now["gname"] != "G0" else L["last"]["gname"]
                 hist[hist.index("grid")] = "grid-" + rel.get(other, "other")
+        if L.get("after_random"):       # from then on part of this instance's history
+            hist = ["after-random-parameters"]
         if prev_inst[0] is not None and prev_inst[0] != i:
             hist.append("other-instance-between")
         hcls = "+".join(hist)
